@@ -619,4 +619,46 @@ def specHistory (x : Ext V) : (Nat → Option Content) → List SEvent → List 
   | cs, .write p _ c :: rest => specHistory x (fun q => if q = p then some c else cs q) rest
   | cs, .call p c :: rest => ((cs p).bind fun k => specCall x k c) :: specHistory x cs rest
 
+/-! ## from the characters of the file to its lines: `open(path, "r", encoding="utf-8-sig")`
+
+Every function opens the file in text mode with the `utf-8-sig` codec and the default `newline=None`.
+Given the characters the bytes decode to as plain UTF-8 (a byte order mark is the character U+FEFF): the
+codec drops one leading U+FEFF, universal newlines turn `\r\n` and a lone `\r` into `\n`, and iteration /
+`readline` hand out the lines with their terminator (the last one possibly without). -/
+
+def bomChar : Char := Char.ofNat 0xFEFF
+
+/-- the `utf-8-sig` codec after UTF-8 decoding: one leading byte order mark is not part of the text -/
+def stripBom : List Char → List Char
+  | [] => []
+  | c :: t => if c == bomChar then t else c :: t
+
+/-- universal newlines (`newline=None`) -/
+def univNl : List Char → List Char
+  | [] => []
+  | [c] => [if c == '\r' then '\n' else c]
+  | c :: d :: t =>
+    if c == '\r' then (if d == '\n' then '\n' :: univNl t else '\n' :: univNl (d :: t))
+    else c :: univNl (d :: t)
+
+/-- the lines of a translated text, terminators kept -/
+def splitKeep : List Char → List (List Char)
+  | [] => []
+  | c :: t =>
+    if c == '\n' then [c] :: splitKeep t
+    else match splitKeep t with
+      | [] => [[c]]
+      | h :: r => (c :: h) :: r
+
+/-- the lines the text layer hands out for a file with these characters -/
+def decodeLines (cs : List Char) : List String := (splitKeep (univNl (stripBom cs))).map String.ofList
+
+/-- a line as it stands in the file: its terminator `\n` written as `eol` -/
+def rawLine (eol : List Char) (l : String) : List Char := l.toList.dropLast ++ eol
+
+/-- the characters of the file that holds these lines (each ending in `\n`), with or without a byte order
+mark, with `eol` (`\n` or `\r\n`) at the end of every line -/
+def rawText (bom : Bool) (eol : List Char) (lines : List String) : List Char :=
+  (if bom then [bomChar] else []) ++ lines.flatMap (rawLine eol)
+
 end Pew.Thermo
